@@ -535,7 +535,7 @@ for g in sys.argv[2].split(','):
   for path in sys.argv[3:]:
     mod.SCHEMA_PATH = path
     try:
-      out[g + '|' + path] = hashlib.sha256(mod.generate().encode()).hexdigest()
+      out[g + '|' + path] = mod.generate()
     except Exception as e:
       out[g + '|' + path] = 'EXC ' + type(e).__name__ + ': ' + str(e)[:200]
 print(json.dumps(out))
@@ -606,6 +606,7 @@ def main(ck):
                     'special contexts default / default_* / plugin / body->worldbody are taken from the generators\' own '
                     'documentation comments']
   saved = []
+  nsaved = dict(multi=0, other=0)
   ncompiled = [0]
   max_compile = ck.budget(4, 60)
 
@@ -638,16 +639,31 @@ def main(ck):
     if nt and ncompiled[0] < max_compile:
       ncompiled[0] += 1
       compile_table(outs['generate_mjcf_table'], rows, cons, tag)
+    # shape that makes iteration order observable: one element reaching >= 2 constraint-bearing groups through `use`
+    def con_groups(ename):
+      seen, todo, n = set(), [m['group'] for m in mm.elements[ename]['members'] if m['kind'] == 'use'], 0
+      while todo:
+        g = todo.pop()
+        if g in seen:
+          continue
+        seen.add(g)
+        n += any(m['kind'] == 'con' for m in mm.groups[g]['members'])
+        todo += [m['group'] for m in mm.groups[g]['members'] if m['kind'] == 'use']
+      return n
+    multi = max(con_groups(e) for e in mm.elements) >= 2
+    quota = nsaved['multi' if multi else 'other'] < (ck.budget(8, 40) if multi else ck.budget(4, 20))
     if path in [p_ for p_, _ in saved]:
       pass
-    elif len(saved) < ck.budget(6, 40):
-      saved.append((path, {g: hashlib.sha256(outs[g].encode()).hexdigest() for g in GENS_F1}))
+    elif quota:
+      nsaved['multi' if multi else 'other'] += 1
+      saved.append((path, dict(outs)))       # full texts: compared byte for byte with the subprocess outputs
     else:
       os.unlink(path)
     labels = ['f1'] + ['f1:' + x for x, on in (('use', uses), ('nested-use', nested), ('alias', alias), ('default-ctx', dflt),
                                                 ('body-worldbody', 'body' in model['special']),
                                                 ('constraints', any(mm.constraints(e) for e in mm.elements)),
-                                                ('xml-tag', any(mm.efacet(e, 'xml') for e in mm.elements))) if on]
+                                                ('xml-tag', any(mm.efacet(e, 'xml') for e in mm.elements)),
+                                                ('multi-constraint-groups', multi)) if on]
     ck.case(nontrivial=nt, key=text, labels=labels, sample=dict(family='F1', special=model['special'], schema=text[:1200],
                                                                table_rows=len(rows), constraints=len(cons)) if nt else None)
 
@@ -663,16 +679,21 @@ def main(ck):
     got = hashseed_hashes(GENS_F1, paths, hs)
     for p, want in saved:
       for g in GENS_F1:
-        if got.get(g + '|' + p) != want[g]:
-          ck.violation('%s output depends on PYTHONHASHSEED (%d) or on the process: %s vs %s for %s' % (
-              g, hs, got.get(g + '|' + p), want[g], p), dict(schema=open(p).read(), generator=g, hashseed=hs),
-              bucket='determinism-hashseed')
+        if got.get(g + '|' + p) != want[g]:          # byte-for-byte
+          a_, b_ = (got.get(g + '|' + p) or '').split('\n'), want[g].split('\n')
+          first = next((i for i, (x, y) in enumerate(zip(a_, b_)) if x != y), min(len(a_), len(b_)))
+          ck.violation('%s output depends on PYTHONHASHSEED (subprocess with %d vs in-process with 0): first differing line '
+                       '%d: %r vs %r' % (g, hs, first + 1, a_[first:first + 1], b_[first:first + 1]),
+                       dict(schema=open(p).read(), generator=g, hashseed=hs), bucket='determinism-hashseed')
   real_hashes = [hashseed_hashes(GENS_F1 + ['generate_read_table', 'generate_default_table'], [real], hs) for hs in seeds]
   if not all(h == real_hashes[0] for h in real_hashes) or any(v.startswith('EXC') for v in real_hashes[0].values()):
-    ck.violation('generators are not deterministic / fail on the real schema under different PYTHONHASHSEED: %r' % real_hashes,
-                 dict(hashes=real_hashes), bucket='determinism-hashseed')
+    differing = sorted(k.split('|')[0] for k in real_hashes[0] if any(h.get(k) != real_hashes[0][k] for h in real_hashes))
+    failing = dict((k.split('|')[0], v[:200]) for k, v in real_hashes[0].items() if v.startswith('EXC'))
+    ck.violation('generators are not deterministic / fail on the real schema under different PYTHONHASHSEED: differing %r, '
+                 'failing %r' % (differing, failing), dict(differing=differing, failing=failing), bucket='determinism-hashseed')
   ck.extra['hashseeds'] = seeds
   ck.extra['hashseed_schemas'] = len(paths) + 1
+  ck.extra['hashseed_schemas_multi_constraint_groups'] = nsaved['multi']
 
   # ---- F2: edits of the real schema, metamorphic relations on read/default tables
   real_text = open(real).read()
